@@ -186,8 +186,20 @@ fn case(st: &mut Stream, c: &Case, kind: &str) {
     let ragged = c.src.len() % c.cap != 0;
     let nontrivial = partial || mixed || wrapped || ragged || c.cap == 1 || (c.start != 0 && !c.prefill.is_empty());
     st.count(kind);
-    st.count(&format!("cap_{}", c.cap));
-    st.count(&format!("prefill_len_{}", c.prefill.len()));
+    st.count(&format!("cap_{}", if c.cap <= 5 { c.cap.to_string() } else if c.cap <= 24 { "6-24".into() } else if c.cap <= 99 { "25-99".into() } else { c.cap.to_string() }));
+    st.count(&format!("prefill_{}", if c.prefill.is_empty() { "empty" } else if c.prefill.len() == c.cap { "full" } else { "partial" }));
+    let refills = { // how often the buffer is found empty by a call that refills (from the op list alone)
+        let (mut have, mut r) = (c.prefill.len(), 0u64);
+        for o in &c.ops { match *o {
+            Op::Next => { if have == 0 { r += 1; have = c.cap; } have -= 1; }
+            Op::Frames(k) => { if have == 0 { r += 1; have = c.cap; } have -= k.min(have); }
+            Op::Drain => { if have == 0 { r += 1; } have = 0; }
+            Op::Until => { have = 0; }
+            Op::Look => {}
+        } }
+        r
+    };
+    st.count_n("refills_by_next_or_next_frames", refills);
     if wrapped { st.count("prefill_wraps"); }
     if ragged { st.count("source_len_not_multiple_of_cap"); }
     if c.src.is_empty() { st.count("source_empty"); }
@@ -260,12 +272,41 @@ pub fn run(a: &Args) {
     // larger capacities / longer sources (random only)
     let n_big = if a.thorough() { 40_000 } else { 10_000 };
     for _ in 0..n_big {
-        let cap = 1 + rng.usize_below(24);
+        let cap = if rng.chance(1, 8) { 25 + rng.usize_below(75) } else { 1 + rng.usize_below(24) };
         let start = rng.usize_below(cap);
         let len = rng.usize_below(cap + 1);
         let n = rng.usize_below(3 * cap + 2);
         let c = Case { cap, start, prefill: rand_vals(&mut rng, len, -5000), src: rand_vals(&mut rng, n, 1000), ops: random_ops(&mut rng, cap, len + n + cap) };
         case(&mut st, &c, "random_larger_capacity");
+    }
+    // large ring buffers: whole-buffer refills (exactly `cap` pulls each time the buffer is found empty), batch
+    // lengths and partially drained batches at those sizes; few cases, they are long
+    let big_caps: &[usize] = if a.thorough() { &[100, 511, 512, 513, 1000, 5000] } else { &[100, 513, 1000] };
+    let big_reps = if a.thorough() { 5 } else { 2 };
+    for &cap in big_caps {
+        for rep in 0..big_reps {
+            let (start, len) = match rep { 0 => (0, 0), 1 => (cap - 2, 5.min(cap)), _ => (rng.usize_below(cap), rng.usize_below(cap + 1)) };
+            let n = match rep { 0 => 2 * cap + cap / 3, 1 => cap, _ => rng.usize_below(3 * cap + 2) };
+            let mut ops = vec![Op::Look];
+            if rep == 0 {
+                // frame by frame across a refill, a partial batch, the rest of it, a whole batch, past the end
+                ops.extend([Op::Next, Op::Look, Op::Frames(cap / 2), Op::Next, Op::Drain, Op::Drain, Op::Frames(cap + 3), Op::Frames(0), Op::Look, Op::Until, Op::Look]);
+            } else {
+                for _ in 0..(6 + rng.usize_below(8)) {
+                    ops.push(match rng.below(8) {
+                        0 | 1 => Op::Drain,
+                        2 => Op::Frames(rng.usize_below(cap + 3)),
+                        3 => Op::Frames(1 + rng.usize_below(7)),
+                        4 => Op::Frames(cap),
+                        5 | 6 => Op::Next,
+                        _ => Op::Look,
+                    });
+                }
+                if rng.chance(2, 3) { ops.push(Op::Until); ops.push(Op::Look); }
+            }
+            let c = Case { cap, start, prefill: rand_vals(&mut rng, len, -900_000), src: rand_vals(&mut rng, n, 1000), ops };
+            case(&mut st, &c, "large_capacity");
+        }
     }
     st.exhaustive = false;
     st.finish();
